@@ -165,13 +165,31 @@ type hashModel struct {
 	writeBack []*kit.Func // functions executing UPDATE edges SET hash WHERE id
 }
 
+// tryHashModel is newHashModel without the anchor error: nil when the propagation
+// helper is not recognised (rules that only need to know which calls are
+// propagation entries then treat none as one).
+func tryHashModel(c *kit.Ctx, m *storeModel) (hm *hashModel) {
+	defer func() {
+		if r := recover(); r != nil {
+			if _, ok := r.(kit.AnchorError); ok {
+				hm = nil
+				return
+			}
+			panic(r)
+		}
+	}()
+	return newHashModel(c, m)
+}
+
 func newHashModel(c *kit.Ctx, m *storeModel) *hashModel {
 	hm := &hashModel{}
 	for _, f := range c.P.Funcs("store") {
-		if f.Decl == nil || f.Body == nil || txParamOf(f) == nil {
+		if f.Decl == nil || f.Body == nil {
 			continue
 		}
-		// the cache of new hash values (edge id -> hash) and the delta
+		// the transaction and the cache of new hash values (edge id -> hash) come as
+		// parameters, or as fields of the receiver (a small type wrapping one propagation)
+		hasTx := txParamOf(f) != nil
 		hasMap, hasDelta := false, false
 		for _, p := range f.Params() {
 			if mt, ok := p.Type().Underlying().(*types.Map); ok && isUint32(mt.Elem()) {
@@ -180,6 +198,13 @@ func newHashModel(c *kit.Ctx, m *storeModel) *hashModel {
 			if isUint32(p.Type()) {
 				hasDelta = true
 			}
+		}
+		if cf, tf := recvHashFields(f); cf != nil || tf != nil {
+			hasMap = hasMap || cf != nil
+			hasTx = hasTx || tf != nil
+		}
+		if !hasTx {
+			continue
 		}
 		hasMap = hasMap && hasDelta
 		self := false
@@ -218,12 +243,44 @@ func newHashModel(c *kit.Ctx, m *storeModel) *hashModel {
 }
 
 func (hm *hashModel) isEntry(f *kit.Func) bool {
+	if hm == nil {
+		return false
+	}
 	for _, e := range hm.entries {
 		if e == f {
 			return true
 		}
 	}
 	return false
+}
+
+// recvHashFields returns the fields of f's receiver type that hold the cache of
+// new hash values (map[string]uint32) and the transaction (*sql.Tx), if any.
+func recvHashFields(f *kit.Func) (cache, tx *types.Var) {
+	if f.Decl == nil || f.Decl.Recv == nil || len(f.Decl.Recv.List) == 0 {
+		return nil, nil
+	}
+	t := f.Info().TypeOf(f.Decl.Recv.List[0].Type)
+	if t == nil {
+		return nil, nil
+	}
+	if p, ok := t.Underlying().(*types.Pointer); ok {
+		t = p.Elem()
+	}
+	st, ok := t.Underlying().(*types.Struct)
+	if !ok {
+		return nil, nil
+	}
+	for i := 0; i < st.NumFields(); i++ {
+		fld := st.Field(i)
+		if mt, ok := fld.Type().Underlying().(*types.Map); ok && isUint32(mt.Elem()) {
+			cache = fld
+		}
+		if kit.IsNamedType(fld.Type(), "database/sql", "Tx") {
+			tx = fld
+		}
+	}
+	return cache, tx
 }
 
 // ---- R3 + R6
@@ -466,6 +523,12 @@ func c03Helper(c *kit.Ctx, m *storeModel, hm *hashModel, r4 *kit.Rule) {
 			}
 		case *types.Map:
 			cache = p
+		}
+	}
+	if cache == nil {
+		// the cache is a field of the receiver
+		if cf, _ := recvHashFields(f); cf != nil {
+			cache = cf
 		}
 	}
 	if idp == nil || delta == nil || cache == nil {
@@ -1298,6 +1361,10 @@ func c03EntryShape(c *kit.Ctx, m *storeModel, hm *hashModel, r6 *kit.Rule) {
 		}
 		xt.initCell = func(kit.S) string { return "{}" }
 		st.Eval.Atom = func(x ast.Expr) (string, bool, bool) {
+			// `_, ok := cache[edge id]` in the entry: the cache is created there, nothing is in it yet
+			if o := kit.ObjOf(info, x); o != nil && xt.present[o] {
+				return "present", false, true
+			}
 			isStart := func(y ast.Expr) bool { return st.ObjOf(y) == types.Object(start) }
 			isConst := func(y ast.Expr) bool { _, ok := kit.ConstString(info, y); return ok }
 			if neg, ok := eqAtom(x, isStart, isConst); ok {
@@ -1316,7 +1383,7 @@ func c03EntryShape(c *kit.Ctx, m *storeModel, hm *hashModel, r6 *kit.Rule) {
 			}
 			return nil
 		}
-		res := c.P.Graph(en).Run(kit.NewS(), st.Client())
+		res := c.P.Graph(en).Run(kit.NewS().Set("a:present", "F"), st.Client())
 		if res.Overflow {
 			c.Fatalf("R6 entry overflow")
 		}
